@@ -87,9 +87,6 @@ func classifyIssuer(s string, insecure bool) (string, string) {
 	case !p.hasAuthority:
 		return "reject", "no authority"
 	case p.authority == "" || hostOfAuthority(p.authority) == "":
-		if strings.Contains(p.authority, ":") && !strings.Contains(p.authority, "@") {
-			return "open", "port-only authority"
-		}
 		return "reject", "empty host"
 	case p.query != "":
 		return "reject", "query"
